@@ -206,6 +206,19 @@ def histories(tier):
                         for ms in motions(1 if tier == "quick" else 2):
                             out.append((12, t0 + enter + [t1] + mid + [[leave], SYNC] + ms))
                         out.append((12, t0 + enter + [t1] + mid + [[leave], REL, MOTIONS[0], MOTIONS[4]]))
+    # slightly coupling transforms, large coordinates, small steps: an unrequested axis must still be mentioned when its machine
+    # coordinate changes by a printable amount, however small that is against the coordinate itself
+    big = ["move", [], {"x": 150.0, "y": 80.0, "z": 40.0}]
+    smalls = [["move", [], {"y": 80.1}], ["move", [], {"x": 150.05}], ["rapid", [], {"z": 40.01}], ["move", [], {"x": 150.02, "y": 80.0}]]
+    rel_smalls = [["move", [], {"y": 0.1}], ["rapid", [], {"x": 0.05}], ["move", [], {"z": 0.01}]]
+    for t in (["transform.rotate", [0.5, "z"]], ["transform.rotate", [0.05, "x"]], ["transform.rotate", [-0.2, "y"]], ["transform.reflect", [[1.0, 0.002, 0.0]]]):
+        for dp in (5, 12):
+            for m1 in smalls:
+                for m2 in smalls:
+                    out.append((dp, [t, big, m1, m2]))
+            for m1 in rel_smalls:
+                for m2 in rel_smalls:
+                    out.append((dp, [t, big, ["set_distance_mode", ["relative"]], m1, m2, m1]))
     # a move hook is registered (hooks see and may rewrite the parameters; this one returns them unchanged)
     for ts in seqs(TRANSFORMS[:12], 1 if tier == "quick" else 2):
         for ms in motions(2):
